@@ -62,6 +62,13 @@ func TestVerifLBTrace(t *testing.T) {
 	for i := 0; i < 40; i++ {
 		addrs = append(addrs, &net.TCPAddr{IP: net.IPv4(byte(rng.Intn(256)), byte(rng.Intn(256)), byte(rng.Intn(256)), byte(rng.Intn(256))), Port: rng.Intn(65536)})
 	}
+	// the same printed address in both in-memory representations (4-byte: what the acceptor builds from a sockaddr;
+	// 16-byte: what net.IPv4 / a resolver give): the policy is a function of the address string
+	for _, a := range addrs[:len(addrs):len(addrs)] {
+		if ta, ok := a.(*net.TCPAddr); ok && ta.IP.To4() != nil {
+			addrs = append(addrs, &net.TCPAddr{IP: ta.IP.To4(), Port: ta.Port})
+		}
+	}
 	forged := 0
 	for i, target := range []uint32{0, 1, 0x7fffffff, 0x80000000, 0x80000001, 0xfffffffe, 0xffffffff, 0x40000000, 0xc0000000} {
 		if a, ok := forgeCRC(fmt.Sprintf("/run/peer-%d-", i), target); ok {
